@@ -87,7 +87,7 @@ def eq0(cx, x, name, scale, tol=1e-6):
         cx.prove(name, CB(abs(float(x)) / scale), tol=tol * scale)
 
 
-@contract("distance.point_to_line", fn=D + "_point_to_line", props=["C10", "C11", "C12"])
+@contract("distance.point_to_line", fn=D + "_point_to_line", props=["C10", "C11", "C12", "C20"])
 def _(cx):
     """unit direction: closest point lies on the line, the connecting vector is orthogonal to the line (global optimum), d = |p - c|"""
     f = cx.target()
@@ -101,7 +101,7 @@ def _(cx):
     cx.cover("end")
 
 
-@contract("distance.point_to_line_segment", fn=D + "point_to_line_segment", props=["C10", "C11", "C12"])
+@contract("distance.point_to_line_segment", fn=D + "point_to_line_segment", props=["C10", "C11", "C12", "C20"])
 def _(cx):
     """closest point lies on the segment; KKT: (p - c).(x - c) <= 0 for both end points x (global optimum); d = |p - c|"""
     f = cx.target()
@@ -116,7 +116,7 @@ def _(cx):
     cx.cover("end")
 
 
-@contract("distance.point_to_plane", fn=P + "_point_to_plane", props=["C10", "C11", "C12"])
+@contract("distance.point_to_plane", fn=P + "_point_to_plane", props=["C10", "C11", "C12", "C20"])
 def _(cx):
     """unit normal: closest point lies in the plane, the connecting vector is parallel to the normal, d = |p - c| (unsigned)"""
     f = cx.target()
@@ -133,7 +133,7 @@ def _(cx):
     cx.cover("end")
 
 
-@contract("distance.line_to_line", fn=D + "_line_to_line", props=["C10", "C11", "C12"])
+@contract("distance.line_to_line", fn=D + "_line_to_line", props=["C10", "C11", "C12", "C20"])
 def _(cx):
     """unit directions; outside the epsilon band (|det| >= epsilon or exactly parallel): points on their lines, connecting vector
     orthogonal to both directions (global optimum), d^2 = |p1 - p2|^2 (the code computes d from a different expression)"""
@@ -159,7 +159,7 @@ def _(cx):
     cx.cover("end")
 
 
-@contract("distance.line_segment_to_line_segment", fn=D + "_line_segment_to_line_segment", props=["C10", "C11", "C12"])
+@contract("distance.line_segment_to_line_segment", fn=D + "_line_segment_to_line_segment", props=["C10", "C11", "C12", "C20"])
 def _(cx):
     """two non-degenerate segments: points on their segments, d = |c1 - c2|, KKT on both segments:
     (c1 - c2).(x - c1) >= 0 for the end points x of segment 1 and (c1 - c2).(y - c2) <= 0 for those of segment 2"""
@@ -192,7 +192,7 @@ def _(cx):
     cx.cover("end")
 
 
-@contract("distance.line_to_line_segment", fn=D + "_line_to_line_segment", props=["C10", "C11", "C12"])
+@contract("distance.line_to_line_segment", fn=D + "_line_to_line_segment", props=["C10", "C11", "C12", "C20"])
 def _(cx):
     """non-degenerate line direction and segment: points on line / segment, d = |c1 - c2|, connecting vector orthogonal to the line
     and KKT on the segment"""
@@ -222,7 +222,7 @@ def _(cx):
     cx.cover("end")
 
 
-@contract("distance.point_to_triangle", fn="distance3d.distance._triangle.point_to_triangle", props=["C10", "C11", "C12"])
+@contract("distance.point_to_triangle", fn="distance3d.distance._triangle.point_to_triangle", props=["C10", "C11", "C12", "C20"])
 def _(cx):
     """triangle of non-zero area: the closest point is a convex combination of the vertices (weights read off the result),
     d = |p - c|, KKT: (p - c).(x - c) <= 0 for the three vertices x (global optimum over the triangle)"""
@@ -270,7 +270,7 @@ def _eps(cx):
     return 1e-6
 
 
-@contract("distance.line_to_plane", fn=P + "line_to_plane", props=["C10", "C11", "C12"], deps=[P + "_line_to_plane", P + "_point_to_plane"])
+@contract("distance.line_to_plane", fn=P + "line_to_plane", props=["C10", "C11", "C12", "C20"], deps=[P + "_line_to_plane", P + "_point_to_plane"])
 def _(cx):
     """unit direction and normal, outside the epsilon band ((u.n)^2 >= epsilon or exactly parallel): intersecting -> common point
     with d = 0; parallel -> d = |(l - q).n|, plane point in the plane, connecting vector parallel to the normal"""
@@ -297,7 +297,7 @@ def _(cx):
     cx.cover("end")
 
 
-@contract("distance.line_segment_to_plane", fn=P + "_line_segment_to_plane", props=["C10", "C11", "C12"],
+@contract("distance.line_segment_to_plane", fn=P + "_line_segment_to_plane", props=["C10", "C11", "C12", "C20"],
           deps=[P + "_line_to_plane", P + "_point_to_plane", "distance3d.geometry.convert_segment_to_line"])
 def _(cx):
     """non-degenerate segment, unit normal, outside the epsilon band: segment point on the segment, plane point in the plane,
